@@ -1,7 +1,7 @@
 #!/bin/bash
 # re-confirms every seeded change and runs the property's quick check against it (refreshes seeded/<id>/meta.json)
 cd /verif
-for d in seeded/*/; do
+for d in seeded/C1*/; do
   id=$(basename $d); prop=${id%%-*}
   flags=""; [ "$prop" = C18 ] && flags="-race -timeout 20m"
   tools/seedcheck.sh /verif/seeded/$id $id $prop "$flags" 2>&1 | grep "^\[$id\]"
